@@ -99,6 +99,39 @@ def interleaving(ins, entries):
     return inter, after
 
 
+def coinciding_positions(insts):
+    """(some position lies in differently named phase sets on two chromosomes,
+        ... in two families of one chromosome,
+        the seeded shape: a position of a family on a chromosome coincides with a position that a later-processed
+        family had on the previous chromosome under another phase-set name)"""
+    across_chrom = across_fam = stale_shape = False
+    chroms = []
+    for ins in insts:
+        if ins["chromosome"] not in chroms:
+            chroms.append(ins["chromosome"])
+    by = {c: [i for i in insts if i["chromosome"] == c] for c in chroms}
+    for ci, c in enumerate(chroms):
+        for a in range(len(by[c])):
+            ca = dict(map(tuple, by[c][a]["components"]))
+            for b in range(a + 1, len(by[c])):
+                cb = dict(map(tuple, by[c][b]["components"]))
+                across_fam |= any(p in cb and cb[p] != ca[p] for p in ca)
+            for c2 in chroms[ci + 1:]:
+                for other in by[c2]:
+                    co = dict(map(tuple, other["components"]))
+                    across_chrom |= any(p in co and co[p] != ca[p] for p in ca)
+        if ci > 0:
+            prev = by[chroms[ci - 1]]
+            for a, ins in enumerate(by[c]):
+                ca = dict(map(tuple, ins["components"]))
+                later = [x for x in prev if sorted(x["family"]) > sorted(ins["family"])]
+                for x in later:
+                    cx = dict(map(tuple, x["components"]))
+                    first = {r["variants"][0][0] for r in ins["reads"]}
+                    stale_shape |= any(p in cx and cx[p] != ca[p] for p in first)
+    return across_chrom, across_fam, stale_shape
+
+
 def multi_change_records(in_vcf, out_vcf):
     """number of records in which the genotypes of two or more samples differ between input and output VCF"""
     n = 0
@@ -144,6 +177,7 @@ def execute(ctx, spec, opts_list):
                     "source_ids": len({r["source_id"] for i in insts for r in i["reads"]}),
                     "empty_instances": sum(1 for i in insts if not i["accessible_positions"]),
                     "readless_instances": sum(1 for i in insts if not i["reads"])}
+            meta["coinciding"] = coinciding_positions(insts)
             # (only to name a failure) does a list hold nothing but the entries of the last call?
             gl = [e for e in (files["gts"] or []) if e != "H"]
             last_chrom = insts[-1]["chromosome"] if insts else None
@@ -277,7 +311,7 @@ def evaluate(ctx, results):
         ctx.tally(f"option.max_coverage.{opt.get('max_coverage', 15)}")
         ctx.tally(f"option.recombrate.{opt['recombrate']}" if opt["ped"] and not opt["genmap"] else "option.recombrate.n/a")
         for key in ("gl", "odd_records", "gap", "ped_shuffle", "ped_extra", "two_bams", "shared_read_names", "prephased",
-                    "missing_gt", "interleave"):
+                    "missing_gt", "interleave", "same_coords"):
             if spec.get(key):
                 ctx.tally("input." + key)
         if spec.get("paired_fraction"):
@@ -298,6 +332,13 @@ def evaluate(ctx, results):
             ctx.tally(key, meta[key])
         if meta["multi_change_records"] and opt["gts"]:
             ctx.tally("runs_listing_multi_sample_changes")
+        for flag, name in zip(meta["coinciding"], ("runs_with_a_position_in_other_phase_set_on_another_chromosome",
+                                                   "runs_with_a_position_in_other_phase_set_in_another_family",
+                                                   "runs_with_first_variant_at_stale_position_of_later_family")):
+            if flag:
+                ctx.tally(name)
+                if opt["reads"]:
+                    ctx.tally(name + ".read_list_requested")
         if meta["source_ids"] > 1:
             ctx.tally("runs_with_two_source_ids")
         desc = f"spec={spec} options={opt} (instances: {meta['instances']}, entries in files: {meta['entries']})"
